@@ -1761,6 +1761,7 @@ start_member (GMarkupParseContext *context,
 
   enum_ = (GIrNodeEnum *)CURRENT_NODE (ctx);
   enum_->values = g_list_append (enum_->values, value_);
+  ctx->current_typed = (GIrNode *) value_;
 
   return TRUE;
 }
@@ -2339,6 +2340,7 @@ start_attribute (GMarkupParseContext *context,
   const gchar *name;
   const gchar *value;
   GIrNode *curnode;
+  gboolean to_typed;
 
   if (strcmp (element_name, "attribute") != 0 || ctx->node_stack == NULL)
     return FALSE;
@@ -2357,11 +2359,22 @@ start_attribute (GMarkupParseContext *context,
       return FALSE;
     }
 
-  state_switch (ctx, STATE_ATTRIBUTE);
-
   curnode = CURRENT_NODE (ctx);
 
-  if (ctx->current_typed && ctx->current_typed->type == G_IR_NODE_PARAM)
+  /* attributes of a parameter, return value, field, property, enum member or
+   * class-level constant belong to that element, not to the enclosing node */
+  to_typed = ctx->current_typed != NULL &&
+    (ctx->current_typed->type == G_IR_NODE_PARAM ||
+     ctx->current_typed->type == G_IR_NODE_VALUE ||
+     ctx->state == STATE_CLASS_FIELD || ctx->state == STATE_INTERFACE_FIELD ||
+     ctx->state == STATE_BOXED_FIELD || ctx->state == STATE_STRUCT_FIELD ||
+     ctx->state == STATE_UNION_FIELD || ctx->state == STATE_CLASS_PROPERTY ||
+     ctx->state == STATE_INTERFACE_PROPERTY || ctx->state == STATE_CLASS_CONSTANT ||
+     ctx->state == STATE_INTERFACE_CONSTANT);
+
+  state_switch (ctx, STATE_ATTRIBUTE);
+
+  if (to_typed)
     {
       g_hash_table_insert (ctx->current_typed->attributes, g_strdup (name), g_strdup (value));
     }
@@ -3576,7 +3589,10 @@ end_element_handler (GMarkupParseContext *context,
 
     case STATE_ENUM:
       if (strcmp ("member", element_name) == 0)
-	break;
+	{
+	  ctx->current_typed = NULL;
+	  break;
+	}
       else if (strcmp ("function", element_name) == 0)
 	break;
       else if (require_one_of_end_elements (context, ctx,
